@@ -30,7 +30,7 @@ ASSUMPTIONS = ["criteria relying on the default search are exercised in float64 
                "the bisection precision 1e-6 (x Lipschitz constant <= 4) in the criterion value",
                "float32 samples are kept below 8 in magnitude for default-search criteria (the search precision 1e-6 is below one ulp beyond that; "
                "termination of bisect is property C19, not claimed)"]
-PROBES = ["earlier_quote_aborted", "price_recomputed", "shift_equivariance", "erm_price_equals_loss", "cash_certainty_equivalent", "constant_sample", "multi_column_sample",
+PROBES = ["search_precision_in_criterion_units", "earlier_quote_aborted", "price_recomputed", "shift_equivariance", "erm_price_equals_loss", "cash_certainty_equivalent", "constant_sample", "multi_column_sample",
           "default_search", "n_times_ge2", "fresh_clone", "other_actor_between", "init_state", "listed_hedge", "flat_market", "single_path"]
 CRITS = ["EntropicRiskMeasure", "EntropicLoss", "IsoelasticLoss", "ExpectedShortfall", "QuadraticCVaR", "UserES", "UserMeanStd"]
 DEFAULT_SEARCH = {"IsoelasticLoss", "UserES", "UserMeanStd"}
@@ -372,7 +372,24 @@ def _cash_checks(crit, ck, pl, kind, dtype, cfg, stats, seq):
         if not bit_equal(cash, -val):
             raise Violation(ID, "cash_not_minus_risk", site, dict(cfg, cash=cash, risk=val), seq)
     else:
-        if not bool(((cval.double() - val.double()).abs() <= tol_v).all()):
+        okv = (cval.double() - val.double()).abs() <= tol_v
+        if loose and not bool(okv.all()):
+            # the default search stops when its bracket is narrower than 1e-6 *in cash*; what that is worth in the criterion
+            # depends on the criterion's slope there (log utility at an outcome of 0.06: 16 per unit). The statement is that
+            # the reported amount is within the search precision of the certainty equivalent: the criterion of the sample
+            # lies between the criterion of the constants cash -/+ 2e-6
+            try:
+                with torch.no_grad():
+                    c_lo = crit((cash - 2e-6 * mag).unsqueeze(0).expand(pl.shape).clone()).double()
+                    c_hi = crit((cash + 2e-6 * mag).unsqueeze(0).expand(pl.shape).clone()).double()
+                slack = 256 * eps * (mag + abs(float(val.abs().max())))
+                inside = (val.double() >= torch.minimum(c_lo, c_hi) - slack) & (val.double() <= torch.maximum(c_lo, c_hi) + slack)
+                if bool((inside & torch.isfinite(c_lo) & torch.isfinite(c_hi) | okv).all()):
+                    okv = torch.ones_like(okv)
+                    stats.probe("search_precision_in_criterion_units")
+            except Exception:
+                pass
+        if not bool(okv.all()):
             raise Violation(ID, "cash_not_certainty_equivalent", site, dict(cfg, sample=pl, cash=cash, criterion_of_sample=val,
                                                                             criterion_of_constant=cval, tol=tol_v), seq)
     lo = pl.amin(dim=0).double()
